@@ -158,15 +158,20 @@ Theorem C16_axi2clk_fsm_pulse_train :
   forall cw (n : nat) ins, 0 <= cw -> (1 <= n)%nat -> Z.of_nat n < 2 ^ cw -> length ins = (2 * n + 2)%nat ->
   a2c_trace cw (a2c_idle 0) ((true, Z.of_nat n) :: ins) = a2c_expected n.
 Proof. exact S_axi2clk_fsm_pulse_train. Qed.
-(* ... but the counter is cleared only in an IDLE cycle WITHOUT a handshake: a request presented in the first idle cycle
-   after a run starts from the stale count and does not stop at its target (observation on the extension; see docs) *)
-Theorem C16_axi2clk_fsm_back_to_back_refuted :
-  let first := (true, 2) :: repeat (false, 0) 5 in
-  let second := (true, 1) :: repeat (false, 0) 10 in
-  a2c_trace 8 (a2c_idle 0) (first ++ [(false, 0)]) = a2c_expected 2 /\
-  skipn 7 (map fst (a2c_trace 8 (a2c_idle 0) (first ++ second))) = [1; 0; 1; 0; 1; 0; 1; 0; 1; 0] /\
-  Forall (fun p => snd p = 0) (skipn 6 (a2c_trace 8 (a2c_idle 0) (first ++ second))).
-Proof. exact S_axi2clk_fsm_back_to_back_refuted. Qed.
+(* back-to-back requests (handshake in the first idle cycle after a run).  The statement is
+   selected by a probe of the REGENERATED FSM (Model/Axi.v a2c_clears_on_handshake):
+   - code that clears clk_count at the handshake (fixes/C16-F2.diff):  the pulse train is exact from ANY counter value;
+   - pinned code (finding C16-F2): refutation witness — the request starts from the stale count and does not stop at its target. *)
+Theorem C16_axi2clk_fsm_back_to_back :
+  if a2c_clears_on_handshake
+  then forall cw (n : nat) c ins, 0 <= cw -> (1 <= n)%nat -> Z.of_nat n < 2 ^ cw -> length ins = (2 * n + 2)%nat ->
+       a2c_trace cw (a2c_idle c) ((true, Z.of_nat n) :: ins) = a2c_expected n
+  else let first := (true, 2) :: repeat (false, 0) 5 in
+       let second := (true, 1) :: repeat (false, 0) 10 in
+       a2c_trace 8 (a2c_idle 0) (first ++ [(false, 0)]) = a2c_expected 2 /\
+       skipn 7 (map fst (a2c_trace 8 (a2c_idle 0) (first ++ second))) = [1; 0; 1; 0; 1; 0; 1; 0; 1; 0] /\
+       Forall (fun p => snd p = 0) (skipn 6 (a2c_trace 8 (a2c_idle 0) (first ++ second))).
+Proof. exact S_axi2clk_fsm_back_to_back. Qed.
 
 (* ------------------------------------------------------------------ non-vacuity of the hypotheses *)
 Definition ok_sched : list r2a_in :=
@@ -207,4 +212,4 @@ Print Assumptions C16_r2a_done_mid_transfer_duplicates_refuted.
 Print Assumptions C16_kernel_fsm_sequence.
 Print Assumptions C16_kernel_fsm_done_pulse.
 Print Assumptions C16_axi2clk_fsm_pulse_train.
-Print Assumptions C16_axi2clk_fsm_back_to_back_refuted.
+Print Assumptions C16_axi2clk_fsm_back_to_back.
